@@ -91,3 +91,71 @@ Fixpoint rune_count_aux (fuel : nat) (s : bytes) : nat :=
            end
   end.
 Definition rune_count (s : bytes) : nat := rune_count_aux (List.length s) s.
+
+(** * strconv.Quote / QuoteRune *)
+From GV Require Import Gen.Consts.
+
+Fixpoint in_ranges (r : N) (l : list (N * N)) : bool :=
+  match l with
+  | [] => false
+  | (lo, hi) :: l' => (N.leb lo r && N.leb r hi) || in_ranges r l'
+  end.
+
+(** strconv.IsPrint *)
+Definition is_print (r : N) : bool :=
+  if N.ltb r 128 then N.leb 32 r && N.ltb r 127 else in_ranges r c_isPrintRanges.
+
+Definition hex_digit (d : N) : N := if N.ltb d 10 then 48 + d else 87 + d.
+
+(** [hex_fixed n v]: v in lower-case hex, exactly n digits (most significant first) *)
+Fixpoint hex_fixed (n : nat) (v : N) : bytes :=
+  match n with
+  | O => []
+  | S k => hex_fixed k (v / 16) ++ [hex_digit (v mod 16)]
+  end.
+
+Definition valid_rune (r : N) : bool :=
+  (N.ltb r 55296) || (N.ltb 57343 r && N.leb r 1114111).
+
+(** strconv.appendEscapedRune with ASCIIonly = graphicOnly = false *)
+Definition escaped_rune (q : N) (r : N) : bytes :=
+  if N.eqb r q || N.eqb r 92 then [92; r]
+  else if is_print r then encode_rune r
+  else if N.eqb r 7 then lit "\a"
+  else if N.eqb r 8 then lit "\b"
+  else if N.eqb r 12 then lit "\f"
+  else if N.eqb r 10 then lit "\n"
+  else if N.eqb r 13 then lit "\r"
+  else if N.eqb r 9 then lit "\t"
+  else if N.eqb r 11 then lit "\v"
+  else if N.ltb r 32 || N.eqb r 127 then lit "\x" ++ hex_fixed 2 r
+  else let r' := if valid_rune r then r else 65533 in
+       if N.ltb r' 65536 then lit "\u" ++ hex_fixed 4 r' else lit "\U" ++ hex_fixed 8 r'.
+
+(** body of strconv.Quote(s) (without the surrounding quotes); recursion on fuel = input *)
+Fixpoint quote_body_aux (fuel : bytes) (s : bytes) : bytes :=
+  match fuel with
+  | [] => []
+  | _ :: fuel' =>
+    match s with
+    | [] => []
+    | b :: _ =>
+      match decode_rune s with
+      | None => []
+      | Some (r, n) =>
+        (if Nat.eqb n 1 && N.eqb r 65533 then lit "\x" ++ hex_fixed 2 b else escaped_rune 34 r)
+        ++ quote_body_aux fuel' (skipn n s)
+      end
+    end
+  end.
+Definition go_quote_body (s : bytes) : bytes := quote_body_aux s s.
+Definition go_quote (s : bytes) : bytes := [34] ++ go_quote_body s ++ [34].
+
+(** fmt's %q for a rune value; [None] models a negative / out-of-range value (scanner.EOF) *)
+Definition go_quote_rune (r : option N) : bytes :=
+  let r' := match r with None => 65533 | Some x => if valid_rune x then x else 65533 end in
+  [39] ++ escaped_rune 39 r' ++ [39].
+
+(** fmt's %c *)
+Definition go_fmt_c (r : option N) : bytes :=
+  match r with None => encode_rune 65533 | Some x => encode_rune x end.
